@@ -148,15 +148,11 @@ impl QModel {
             }
         }
     }
-    /// "the input" of C09 may be read as the raw or as the clamped value (C08 clamps, the documentation says the input is
-    /// clamped): where the two readings disagree either behaviour is accepted
+    /// the window is judged on the input as passed ("the input lies inside that note's ... bucket"): an input of 10.5 V
+    /// is outside the window of note 119 although its clamped value is inside (two blind agents read it so; the
+    /// clamp-first variant of the white-box review, benign/quant-O2, is therefore NOT accepted)
     pub fn window(&self, v: f32) -> Kept {
-        let raw = self.window_of(v);
-        if v.is_nan() || (v >= 0.0 && v <= 10.0) {
-            return raw;
-        }
-        let cl = self.window_of(clampv(v));
-        if raw == cl { raw } else if raw == Kept::NoHistory { raw } else { Kept::EitherWay }
+        self.window_of(v)
     }
     fn window_of(&self, v: f32) -> Kept {
         let Some(p) = self.prev else { return Kept::NoHistory };
@@ -223,8 +219,7 @@ pub fn convert_checked(q: &mut Quantizer, m: &mut QModel, v: f32, out: &mut Vec<
             }
         }
         Kept::EitherWay => {
-            let fresh_cl = with_scale(m.mask).convert(clampv(v));
-            if !(c.note_num == prev.unwrap() || conv_eq(&c, &fresh) || c.note_num == fresh_cl.note_num) {
+            if !(c.note_num == prev.unwrap() || conv_eq(&c, &fresh)) {
                 out.push(("C09", "window-edge", format!("convert({:?}) at a window edge gives note {}, neither the previous note {:?} nor the history-free answer {}", v, c.note_num, prev, fresh.note_num)));
             }
         }
@@ -595,6 +590,24 @@ pub fn outside_values() -> Vec<f32> {
     v
 }
 
+/// in-range inputs that are not near a whole microvolt: every f32 exponent below 10 V with five mantissas (subnormals
+/// included) and a few named ones
+pub fn inside_values() -> Vec<f32> {
+    let mut v: Vec<f32> = vec![f32::from_bits(1), 1.0e-40, f32::MIN_POSITIVE, 1.0e-30, 1.0e-10, 4.0e-7, 5.0e-7, 1.0e-6, 0.083_333_33, 0.083_333_34, 1.0 / 12.0, 5.0 / 12.0, 7.0 / 12.0, 9.999_999, 10.0];
+    for e in 0..=130u32 {
+        for m in [0u32, 1, 0x40_0000, 0x12_3456, 0x7f_ffff] {
+            v.push(f32::from_bits(e << 23 | m));
+        }
+    }
+    for n in 0..=120u32 {
+        v.push(n as f32 / 12.0);
+    }
+    v.retain(|x| *x >= 0.0 && *x <= 10.0);
+    v.sort_by(|a, b| a.total_cmp(b));
+    v.dedup_by(|a, b| a.to_bits() == b.to_bits());
+    v
+}
+
 pub fn c08(ctx: &Ctx) -> Report {
     let mut rep = Report::new();
     rep.rule.push("E2: for every non-empty scale (4095) a fresh real quantizer converts every input on the lattice (thorough: all 10,000,001 microvolt values in [0,10] V; quick: +-12 uV around each of the 241 half-semitone boundaries plus a 9973 uV stride) and the note is compared with the exact nearest-allowed-note rule evaluated in 1/3-uV integers, accepting the answers for v-10uV and v+10uV; non-trivial = conversions on scales with at least one forbidden note".into());
@@ -603,6 +616,8 @@ pub fn c08(ctx: &Ctx) -> Report {
     let lat = &lattice;
     let outside = outside_values();
     let outr = &outside;
+    let inside = inside_values();
+    let inr = &inside;
     par_ranges(ctx, &mut rep, 4095, 4095, |_, lo, hi, lc| {
         for s in lo..hi {
             let mask = (s + 1) as u16;
@@ -614,7 +629,7 @@ pub fn c08(ctx: &Ctx) -> Report {
             }
             // outside the range: compare with the clamped value
             let id = Ideal::new(mask);
-            for &v in outr.iter() {
+            for &v in outr.iter().chain(inr.iter()) {
                 let mut q = with_scale(mask);
                 let c = q.convert(v);
                 let (a, b) = id.acceptable(clampv(v));
@@ -787,6 +802,61 @@ pub fn c07(ctx: &Ctx) -> Report {
     // E1: histories
     explore(quant_machine(full), &ExploreCfg { max_depth: None, state_cap: 40_000_000, threads: ctx.threads, label: "allow/forbid/convert histories to fixpoint".into() }, &mut rep, &["C07"]);
     enumerate_sequences(&small_quant_machine(), if full { 5 } else { 4 }, ctx, &mut rep, &["C07"], "all edit / convert sequences, no state matching");
+    // many scale edits between two conversions of the same input (more than an 8-bit / 16-bit count of edits can hold):
+    // the held note is forbidden by the first or by the last of them, the others do not change its pitch class
+    {
+        let counts: [usize; 10] = [255, 256, 257, 511, 512, 513, 65_535, 65_536, 65_537, 70_000];
+        par_ranges(ctx, &mut rep, counts.len() as u64 * 2, counts.len() as u64 * 2, |_, lo, hi, lc| {
+            for j in lo..hi {
+                let n = counts[(j / 2) as usize];
+                let first = j % 2 == 0;
+                let mut m = QuantM::new(vec![], vec![]);
+                let mut script: Vec<QOp> = vec![QOp::Convert(1.125)];
+                if first {
+                    script.push(QOp::Forbid(vec![1]));
+                }
+                for i in 0..(n - 1) {
+                    script.push(if i % 2 == 0 { QOp::Forbid(vec![5]) } else { QOp::Allow(vec![5]) });
+                }
+                if !first {
+                    script.push(QOp::Forbid(vec![1]));
+                }
+                script.extend([QOp::Convert(1.125), QOp::Allow(vec![1]), QOp::Convert(1.125)]);
+                for (k, op) in script.iter().enumerate() {
+                    let mut out = StepOut::new();
+                    let r = std::panic::catch_unwind(std::panic::AssertUnwindSafe(|| m.apply(op, &mut out)));
+                    let ops = || -> Vec<String> {
+                        let mut v = vec!["convert:1.125".to_string()];
+                        if first {
+                            v.push("forbid:1".into());
+                        }
+                        v.push(format!("# then forbid:5 / allow:5 in turn, {} edits", n - 1));
+                        if !first {
+                            v.push("forbid:1".into());
+                        }
+                        v.push("convert:1.125".into());
+                        v
+                    };
+                    if let Err(e) = r {
+                        lc.violation(viol("C07", "panic", format!("the real code panicked at operation {} of a script with {} scale edits between two conversions: {}", k + 1, n, panic_msg(&e)), ops()));
+                        break;
+                    }
+                    let mut stop = false;
+                    for f in out.flags {
+                        if f.prop == "C07" {
+                            lc.violation(viol("C07", &format!("{}-after-many-edits", f.class), format!("{} ({} scale edits since the previous conversion)", f.detail, n), ops()));
+                            stop = true;
+                        }
+                    }
+                    if stop {
+                        break;
+                    }
+                }
+                lc.count("conversions_after_many_edits", 1);
+            }
+        });
+        rep.require_nonzero("conversions_after_many_edits");
+    }
     if full {
         key_selfcheck(quant_machine(false), 200_000, &mut rep, "quantizer history machine");
     }
@@ -1148,14 +1218,16 @@ pub fn c19(ctx: &Ctx) -> Report {
             c08_scale(mask, Some(&inputs), true, lc);
         }
     });
-    // out of range inputs, all scales
+    // out of range inputs and in-range inputs off the microvolt lattice (subnormals, n/12, every exponent), all scales
     let outside = outside_values();
     let outr = &outside;
+    let inside = inside_values();
+    let inr = &inside;
     par_ranges(ctx, &mut rep, 4095, 64, |_, lo, hi, lc| {
         let mut fnd: Vec<Finding> = Vec::new();
         for s in lo..hi {
             let mask = (s + 1) as u16;
-            for v in outr.iter().chain([f32::NAN].iter()) {
+            for v in outr.iter().chain(inr.iter()).chain([f32::NAN].iter()) {
                 let mut q = with_scale(mask);
                 let c = q.convert(*v);
                 c19_record(*v, &c, &mut fnd);
